@@ -6,6 +6,7 @@ import fam_l
 import fam_misc
 import fam_f
 import fam_k
+import fam_d
 from fam_l import base_consts
 from vlib import Inconclusive, build_harness, log
 
@@ -145,6 +146,9 @@ CHECKS = {
     "C05": dict(level="model_checking", run=run_l(plans_core)),
     "C04": dict(level="model_checking", run=run_l(plans_c04)),
     "C06": dict(level="model_checking", run=run_l(plans_c06)),
+    "C07": dict(level="exploration", run=fam_d.run_family_d),
+    "C08": dict(level="exploration", run=fam_d.run_family_d),
+    "C12": dict(level="exploration", run=fam_d.run_family_d),
     "C09": dict(level="model_checking", run=fam_f.run_family_f),
     "C10": dict(level="model_checking", run=fam_f.run_family_f),
     "C11": dict(level="model_checking", run=fam_f.run_family_f),
